@@ -421,8 +421,8 @@ def subchecks(tier):
     from vt.props import c13factory
 
     subs = [
-        Sub("spec", body, strategy=idspec.cases, quick=2400, thorough=60000, pretags=pretags, raising_is_failure=False, shrink_s=40),
-        Sub("factory", c13factory.body, strategy=c13factory.cases, quick=600, thorough=8000, pretags=c13factory.pretags),
+        Sub("spec", body, strategy=idspec.cases, quick=2400, thorough=45000, pretags=pretags, raising_is_failure=False, shrink_s=40),
+        Sub("factory", c13factory.body, strategy=c13factory.cases, quick=600, thorough=6000, pretags=c13factory.pretags),
     ]
     if tier == "thorough":
         from vt.props import c13fuzz
